@@ -32,7 +32,7 @@ PROFILES = {
     # fill3_sample: simulated walks of LLexFill for longer contents;
     # extra_programs: programs (beyond all_sites_programs) that get seeded
     # single sites and parentheses in addition to the all-spaces layout
-    'quick': dict(ex_fuel=1, all_sites_programs=18, sampled_sites=2,
+    'quick': dict(ex_fuel=1, all_sites_programs=15, sampled_sites=2,
                   extra_programs=None,
                   sim_num=24, sim_fuel=4, multi_num=48, multi_depth=4,
                   fill_len=2, fill3_sample=None, hosts=3, shards=6),
@@ -83,20 +83,26 @@ def ParseIsolated(groups):
 
 def LayoutOf(place):
   return {'sites': sorted(place['sites'], key=lambda s: (s['b'], s['pos'])),
-          'wraps': sorted(place['wraps']), 'semi': place['semi']}
+          'wraps': sorted(place['wraps']),
+          'nests': sorted(place.get('nests', []), key=lambda x: x['w']),
+          'semi': place['semi']}
 
 
 def NoiseKinds(lay):
   ks = [s['k'] for s in lay['sites']]
   if lay['wraps']:
     ks.append('paren')
+  for x in lay.get('nests', []):
+    ks.append('nest')
+    ks.append('nest_' + x['k'])
   if lay['semi']:
     ks.append('semi')
   return ks
 
 
 def Variant(lay, kind='noise', cfill=None, facts=None):
-  return {'lay': lay, 'kind': kind, 'cfill': cfill, 'facts': facts}
+  return {'lay': sg.NormLayout(lay), 'kind': kind, 'cfill': cfill,
+          'facts': facts}
 
 
 def VariantText(tc, v):
@@ -240,10 +246,15 @@ def Signature(rec, vidx, who, clause, min_lay=None):
     sig['nsites'] = len(kinds)
   if clause == 'tree':
     sig['change'] = '%s->%s' % (canon_p['st'], var_p['st'])
+  lay = sg.NormLayout(lay)
   single_site = (len(lay['sites']) == 1 and not lay['wraps'] and
-                 not lay['semi'])
-  single_wrap = (len(lay['wraps']) == 1 and not lay['sites'] and
-                 not lay['semi'])
+                 not lay['nests'] and not lay['semi'])
+  # one pair or one nest of redundant parentheses around a range
+  single_wrap = (len(lay['wraps']) + len(lay['nests']) == 1 and
+                 not lay['sites'] and not lay['semi'])
+  wrapped = None
+  if single_wrap:
+    wrapped = tc['ranges'][(lay['wraps'] or [lay['nests'][0]['w']])[0] - 1]
   left = right = first = before = None
   if single_site:
     s = lay['sites'][0]
@@ -253,7 +264,7 @@ def Signature(rec, vidx, who, clause, min_lay=None):
     sig['pos'] = s['pos'] if tc['sep'][b] else '-'
     before = cls[b - 2] if b >= 2 else '^'
   elif single_wrap:
-    a, z = tc['ranges'][lay['wraps'][0] - 1]
+    a, z = wrapped
     left = cls[a - 2] if a >= 2 else '^'
     right = cls[z] if z < len(toks) else '$'
     first = cls[a - 1]
@@ -287,20 +298,19 @@ def Signature(rec, vidx, who, clause, min_lay=None):
     newline = single_site and lay['sites'][0]['k'] in ('nl', 'hash')
     if (unary and ((single_site and right == 'num') or
                    (single_wrap and first == 'num' and
-                    tc['ranges'][lay['wraps'][0] - 1][0] ==
-                    tc['ranges'][lay['wraps'][0] - 1][1]))):
+                    wrapped[0] == wrapped[1]))):
       construct = 'unary-minus-number'
     elif PlusMinusRuns(canon_text) != PlusMinusRuns(noisy_text):
       construct = 'plusminus-run-before-paren'
-    elif (lay['sites'] and not lay['wraps'] and not lay['semi'] and
-          sig['change'] == 'rej->ok' and
+    elif (lay['sites'] and not lay['wraps'] and not lay['nests'] and
+          not lay['semi'] and sig['change'] == 'rej->ok' and
           all(s_['b'] >= 1 and s_['b'] < len(toks) and
               cls[s_['b'] - 1] == 'name' and cls[s_['b']] == 'op:+='
               for s_ in lay['sites'])):
       construct = 'assign-combination-needs-space'
     elif (single_wrap and sig['change'] == 'rej->ok' and
           (left.startswith('agg:') or left in ('op:+=', 'op:=')) and
-          _HasTopLevelEqComparison(toks, tc['ranges'][lay['wraps'][0] - 1])):
+          _HasTopLevelEqComparison(toks, wrapped)):
       construct = 'head-value-comparison-with-eq'
     elif (newline and sig['change'] == 'ok->rej' and
           ((left in ('kw:in', 'kw:combine') and
@@ -311,7 +321,8 @@ def Signature(rec, vidx, who, clause, min_lay=None):
                                         else right)[3:]
     elif single_site and left == 'op:..' and sig['change'] == 'ok->rej':
       construct = 'restof-dots-space'
-    elif (lay['sites'] and not lay['wraps'] and not lay['semi'] and
+    elif (lay['sites'] and not lay['wraps'] and not lay['nests'] and
+          not lay['semi'] and
           all(s_['k'] in ('sp', 'nl', 'hash') for s_ in lay['sites']) and
           all(_EqTokenRightOf(toks, s_['b']) for s_ in lay['sites'])):
       construct = 'concise-combine-eq-misfire'
@@ -356,12 +367,14 @@ def _HasTopLevelEqComparison(toks, rng):
 def _Elements(lay):
   return ([('site', s) for s in lay['sites']] +
           [('wrap', w) for w in lay['wraps']] +
+          [('nest', x) for x in lay.get('nests', [])] +
           ([('semi', 1)] if lay['semi'] else []))
 
 
 def _LayoutFrom(elements):
   return {'sites': [e[1] for e in elements if e[0] == 'site'],
           'wraps': [e[1] for e in elements if e[0] == 'wrap'],
+          'nests': [e[1] for e in elements if e[0] == 'nest'],
           'semi': 1 if any(e[0] == 'semi' for e in elements) else 0}
 
 
@@ -448,19 +461,21 @@ def Run(tier):
   # 1. programs (TLC: LSyntaxGen), exhaustive + simulated, and contents
   #    (TLC: LLexFill) -- three independent TLC jobs, run concurrently
   import concurrent.futures as cf
-  with cf.ThreadPoolExecutor(max_workers=3) as ex:
+  with cf.ThreadPoolExecutor(max_workers=5) as ex:
     f1 = ex.submit(sg.RunGen, 'c15_ex', prof['ex_fuel'], 1, imports=False,
                    workers=8)
     f2 = ex.submit(sg.RunGen, 'c15_sim', prof['sim_fuel'], 2, imports=False,
                    simulate='num=%d' % prof['sim_num'], depth=400,
                    seed=seed + 1, workers=4)
     f3 = ex.submit(sg.RunFills, 'c15', prof['fill_len'])
+    f3u = ex.submit(sg.RunFills, 'c15_u', prof['fill_len'], alphabet='unicode')
     f3b = (ex.submit(sg.RunFills, 'c15_sim', 3,
                      simulate='num=%d' % prof['fill3_sample'], seed=seed + 3)
            if prof['fill3_sample'] else None)
     ex_cases, modelled, r1 = f1.result()
     sim_cases, _, r2 = f2.result()
     fills, r5 = f3.result()
+    ufills, r5u = f3u.result()
     if f3b:
       more, r5b = f3b.result()
       if not r5b.ok:
@@ -480,7 +495,10 @@ def Run(tier):
   if not r5.ok or not fills:
     print(r5.out[-3000:])
     return Fail(tier, clock, 'LLexFill run failed (model theorem or machinery)')
-  for r in (r1, r5):
+  if not r5u.ok or not ufills:
+    print(r5u.out[-3000:])
+    return Fail(tier, clock, 'LLexFill (unicode alphabet) run failed')
+  for r in (r1, r5, r5u):
     tlc_states += r.distinct
     tlc_trans += r.generated
   ex_cases = sg.DedupCases(ex_cases)
@@ -491,6 +509,7 @@ def Run(tier):
   stats['programs_simulated'] = len(sim_cases)
   stats['gen_states'] = r1.distinct
   stats['fills_enumerated'] = len(fills)
+  stats['unicode_fills_enumerated'] = len(ufills)
   print('[%6.1fs] programs: %d exhaustive (fuel %d, %d TLC states), %d '
         'simulated; %d contents enumerated (LLexFill theorem holds)'
         % (clock(), len(ex_cases), prof['ex_fuel'], r1.distinct,
@@ -557,6 +576,9 @@ def Run(tier):
       vs.append(Variant({'sites': [],
                          'wraps': [rng.randrange(len(t['ranges'])) + 1],
                          'semi': 0}))
+      vs.append(Variant({'nests': [{
+          'w': rng.randrange(len(t['ranges'])) + 1, 'd': rng.choice([2, 3]),
+          'k': rng.choice(['sp', 'nl', 'hash', 'block'])}]}))
   stats['placements_single_site_tlc'] = len(places1)
   stats['placements_multi_site_tlc'] = len(places2)
   print('[%6.1fs] placements: %d single-site on %d programs (every boundary, '
@@ -602,6 +624,56 @@ def Run(tier):
           {'sites': [{'b': b, 'k': form, 'pos': 'L'}], 'wraps': [], 'semi': 0},
           kind='comment_' + form, cfill=text))
 
+  # 3b. characters of 2, 3 and 4 UTF-8 bytes inside literals that stand
+  #     BEFORE other tokens of the statement (spans after them must still be
+  #     the text at their position, for both parsers) and inside comments
+  def TokensFollow(c, i):
+    return sum(1 for t in c['toks'][i + 1:]
+               if t['k'] in ('var', 'num', 'pred', 'field')) >= 2
+  uhosts = {}
+  for form in ('dq', 'sq', 'tq'):
+    cand = [i for i, c in enumerate(all_cases) if len(c['toks']) <= 40 and any(
+        fm == form and TokensFollow(c, ti)
+        for ti, fm in sg.StringSlots(c['toks']))]
+    uhosts[form] = cand[:prof['hosts']]
+    if not uhosts[form]:
+      return Fail(tier, clock, 'no host with a %s literal before other tokens'
+                  % form)
+  ustr_jobs = []
+  n = 0
+  for f in ufills:
+    text = sg.UnCps(f['text'])
+    if not any(ord(ch) > 127 for ch in text):
+      continue
+    n += 1
+    for form in ('dq', 'sq', 'tq'):
+      if not f['legal'][form]:
+        continue
+      hi = uhosts[form][n % len(uhosts[form])]
+      c = all_cases[hi]
+      slots = [k for k, (ti, fm) in enumerate(sg.StringSlots(c['toks']))
+               if fm == form and TokensFollow(c, ti)]
+      tc = sg.TlcCase(c, 'u%s%05d' % (form, n),
+                      str_fill={slots[n % len(slots)]: text})
+      free = [b for b in range(len(tc['toks']) + 1) if not tc['glue'][b]]
+      vs = [Variant({'sites': [{'b': b, 'k': 'sp', 'pos': 'L'} for b in free]},
+                    kind='unoise')]
+      if tc['ranges']:
+        vs.append(Variant({'nests': [{'w': n % len(tc['ranges']) + 1,
+                                      'd': 2 + n % 2,
+                                      'k': ['nl', 'sp', 'hash', 'block'][n % 4]}]},
+                          kind='unoise'))
+      ustr_jobs.append((tc, sg.Render(all_tc[hi]), 'ustr_' + form, vs))
+    for form in ('hash', 'block'):
+      if not f['legal'][form]:
+        continue
+      hi = comment_hosts[n % len(comment_hosts)]
+      t = ex_tc[hi]
+      free = [b for b in range(len(t['toks']) + 1) if not t['glue'][b]]
+      variants.setdefault(t['id'], []).append(Variant(
+          {'sites': [{'b': free[n % min(3, len(free))], 'k': form, 'pos': 'L'}]},
+          kind='ucomment_' + form, cfill=text))
+
   # 4. parse everything with both parsers
   texts = []
   for pid, vs in variants.items():
@@ -611,6 +683,10 @@ def Run(tier):
   for tc, base_text, _ in str_jobs:
     texts.append(sg.Render(tc))
     texts.append(base_text)
+  for tc, base_text, _, vs in ustr_jobs:
+    texts.append(sg.Render(tc))
+    texts.append(base_text)
+    texts += [VariantText(tc, v) for v in vs]
   parsed = ParseAll(texts)
   stats['texts_parsed'] = len(parsed)
   print('[%6.1fs] parsed %d distinct texts with both parsers'
@@ -624,6 +700,11 @@ def Run(tier):
     bp = parsed[base_text]
     records.append(MakeRecord(
         tc['id'], tc, [], parsed,
+        base={'py': bp['py']['shape'], 'cpp': bp['cpp']['shape']}, kind=kind))
+  for tc, base_text, kind, vs in ustr_jobs:
+    bp = parsed[base_text]
+    records.append(MakeRecord(
+        tc['id'], tc, vs, parsed,
         base={'py': bp['py']['shape'], 'cpp': bp['cpp']['shape']}, kind=kind))
   inc_records, inc_note = IncantationRecords(all_cases, all_tc)
   records += inc_records
@@ -712,11 +793,24 @@ def Run(tier):
   cov = Coverage([case_by_id[p] for p in variants])
   missing = [p for p in modelled if cov.get(p, 0) == 0
              and not p.startswith('import')]
-  missing_noise = [k for k in ['sp', 'nl', 'hash', 'block', 'paren', 'semi']
+  missing_noise = [k for k in ['sp', 'nl', 'hash', 'block', 'paren', 'semi',
+                               'nest', 'nest_sp', 'nest_nl', 'nest_hash',
+                               'nest_block']
                    if per_noise.get(k, 0) == 0]
   missing_kind = [k for k in ['noise', 'str_dq', 'str_sq', 'str_tq',
                               'comment_hash', 'comment_block', 'incantation',
-                              'sticky'] if per_kind.get(k, 0) == 0]
+                              'sticky', 'ustr_dq', 'ustr_sq', 'ustr_tq',
+                              'unoise', 'ucomment_hash', 'ucomment_block']
+                  if per_kind.get(k, 0) == 0]
+  # the unicode literals must have been followed by spans in both parsers
+  for who in ('py', 'cpp'):
+    if not any(r['kind'].startswith('ustr_') and r['canon'][who]['st'] == 'ok'
+               and any(sp[1] > min(i for i, ch in enumerate(r['canon']['text'])
+                                   if ch > 65535)
+                       for sp in r['canon'][who]['spans'])
+               for r in records
+               if any(ch > 65535 for ch in r['canon']['text'])):
+      missing_kind.append('span after a 4-byte character (%s)' % who)
 
   with open(os.path.join(common.BuildDir('replay', PROP), 'all_failures.json'),
             'w') as f:
@@ -806,6 +900,9 @@ ASSUMPTIONS = [
     'token boundaries are those of docs/syntax.md: no layout is inserted '
     'between a name and its opening bracket, inside .field / l[i] / Op{ or '
     'inside an import path; "else if" is one terminal of the grammar',
+    'contents with characters of 2, 3 and 4 UTF-8 bytes (U+00E9, U+20AC, '
+    'U+1D11E) are a separate small alphabet (with ; and a bracket), not '
+    'crossed with the 19-symbol alphabet',
     'redundant parentheses are put only around ranges the grammar licenses '
     'without operator precedence (whole arguments, primaries, propositions)',
     'the canonical text is the tightest rendering that keeps the tokens '
